@@ -392,7 +392,19 @@ def _run_link(case, ghost):
     return {"n": n, "pulls": pulls}
 
 
+_FROZEN = []
+
+
+def freeze_once():
+    """the worker was forked from a parent that holds all generated cases: keep them out of every later
+    gc.collect() (otherwise a collection walks millions of objects in the thorough tier)"""
+    if not _FROZEN:
+        gc.freeze()
+        _FROZEN.append(True)
+
+
 def run_impl(case):
+    freeze_once()
     if case.get("mem") is not None:
         gc.collect()    # drop earlier objects so that object ids get reused (only matters for spill file names)
         # an earlier coupling in the same process, same adapter kind and spill directory, other payloads:
